@@ -233,7 +233,48 @@ def judge_augassign(case):
         viol.append({"kind": "augassign:earlier-graph-disturbed", "detail": f"backward of a graph recorded before the augmented assignment raised {type(e).__name__}: {str(e)[:80]}"})
     return {"nontrivial": True, "outcome": "ok", "violations": viol}
 
+def wrap_cases():
+    return [{"op": "special:wrap", "shapes": [[2]], "args": {"how": how, "had_grad": hg, "then": then}}
+            for how in ("Parameter", "Tensor") for hg in (False, True) for then in ("backward", "backward_twice", "zero_")]
+
+def judge_wrap(case):
+    """a tensor w0 the caller keeps is wrapped (nn.Parameter(w0) / Tensor(w0)); a graph over the WRAPPER is differentiated, or the
+    wrapper's gradient is reset: w0 is outside that graph - its gradient stays what it was - and the wrapper, a leaf of its own,
+    ends up with exactly the contributions of the calls made on it"""
+    sg = harness.load()
+    A = case["args"]
+    w0 = sg.Tensor(np.array([1.5, -0.5]), requires_grad=True)
+    if A["had_grad"]:
+        (w0 * 2.0).backward(sg.Tensor(np.array([1.0, 1.0])))
+    snap = None if w0.grad is None else np.asarray(w0.grad.data).tobytes()
+    viol = []
+    try:
+        w = sg.nn.Parameter(w0) if A["how"] == "Parameter" else sg.Tensor(w0)
+        if not w.requires_grad: w.requires_grad = True
+        if A["then"] == "zero_":
+            w.zero_()
+            exp = np.zeros(2)
+        else:
+            n = 2 if A["then"] == "backward_twice" else 1
+            for _ in range(n):
+                (w * 3.0).backward(sg.Tensor(np.array([1.0, -1.0])))
+            exp = n * np.array([3.0, -3.0])
+        now = None if w0.grad is None else np.asarray(w0.grad.data).tobytes()
+        if now != snap:
+            viol.append({"kind": "wrap:source-gradient-changed", "detail": f"w = {A['how']}(w0) (w0 {'with' if A['had_grad'] else 'without'} a gradient), then {A['then']} on w: "
+                         f"w0.grad went from {None if snap is None else np.frombuffer(snap)} to {None if now is None else np.frombuffer(now)} although w0 is not part of that graph"})
+        got = None if w.grad is None else np.asarray(w.grad.data, dtype=np.float64)
+        if got is None or not np.allclose(got, exp):
+            viol.append({"kind": "wrap:wrapper-gradient-inherited", "detail": f"w = {A['how']}(w0) (w0 {'with' if A['had_grad'] else 'without'} a gradient), then {A['then']}: "
+                         f"w.grad = {got}, the calls made on w contribute {exp}"})
+    except harness.HarnessError:
+        raise
+    except Exception as e:
+        viol.append({"kind": "wrap:raised", "detail": f"{type(e).__name__}: {str(e)[:80]}"})
+    return {"nontrivial": True, "outcome": "ok", "violations": viol}
+
 def dispatch(case):
+    if case["op"] == "special:wrap": return judge_wrap(case)
     if case["op"] == "special:augassign": return judge_augassign(case)
     return judge_special(case) if case["op"].startswith("special:") else judge(case)
 
@@ -270,7 +311,7 @@ def boundary_cases():
     return out
 
 def all_cases(tier):
-    return ct.cases(tier, "grad") + cn.cases(tier, "grad") + clone_detach_cases() + boundary_cases() + augassign_cases()
+    return ct.cases(tier, "grad") + cn.cases(tier, "grad") + clone_detach_cases() + boundary_cases() + augassign_cases() + wrap_cases()
 
 def replay(case):
     with harness.quiet():
@@ -283,7 +324,7 @@ def run(tier, seed):
            "rule": "every case of the tensor-op and nn catalogues (C01/C02 lattices) x operand layouts {separate arrays, strided views of "
                    "one arena with guard cells, overlapping views x / reversed x for same-shaped pairs}: bytes of operands, arena, "
                    "bystander tensor (data and grad), caller's g and result before/after forward and backward; repeat for bit-identity; "
-                   "clone()/detach() storage independence over all shapes of rank <= 3; augmented assignments (t += v ... t @= v, every operand kind) leave the object formerly bound to t and graphs that used it alone; operands on the boundary of the domain (exact zeros under "
+                   "clone()/detach() storage independence over all shapes of rank <= 3; wrapping a kept tensor (nn.Parameter(w0) / Tensor(w0), with and without a gradient on w0) and differentiating over the wrapper leaves w0.grad alone; augmented assignments (t += v ... t @= v, every operand kind) leave the object formerly bound to t and graphs that used it alone; operands on the boundary of the domain (exact zeros under "
                    "sqrt/log/negative and fractional powers, zero denominators, probabilities exactly 0 and 1) where values and gradients may be non-finite; batch-norm running statistics in training mode "
                    "are the only whitelisted change; non-trivial = accepted",
            "samples": r["samples"], "exhaustive": True, "outcomes": r["outcomes"]}
